@@ -935,7 +935,7 @@ end
 theorem WP_id (p : Program) : WP idCfg p = p := by
   have : p.funs.map (WFun idCfg) = p.funs := by
     have h : ∀ d : FunDef, WFun idCfg d = d := fun d => by simp [WFun, WSeq_id]
-    simp [h]
+    rw [List.map_congr_left (g := id) (fun d _ => h d), List.map_id]
   simp [WP, WSeq_id, this]
 
 theorem local_id (p : Program) : Local idCfg p where
@@ -995,10 +995,11 @@ theorem dbg_lookup {p : Program} (hp : dbgFree p = true) (c : WCfg) {env : Env}
 theorem dbg_eval {q : Program} {env : Env} {s : RefSem.St}
     (hl : lookupVar q env s.store "dbg" = some (.builtin "dbg")) (m : Nat) (x : Expr) :
     eval false q (m + 2) env s (dbgCall x) = eval false q m env s x := by
+  simp only [dbgCall, eval, hl, evalList, RefSem.bind]
   cases m with
-  | zero => simp [dbgCall, eval, evalList, hl, RefSem.bind]
+  | zero => simp [eval]
   | succ m' =>
-    simp only [dbgCall, eval, hl, evalList, RefSem.bind]
+    simp only [evalList]
     cases h : eval false q (m' + 1) env s x with
     | mk r s1 =>
       cases r <;> simp [applyVal, applyBuiltin]
@@ -1090,6 +1091,9 @@ theorem local_chk {chk ok fk} (h : PartialId chk ok fk) (sel : Nat → Bool) (p 
       exact hintCheck_le_left.transB (eval_mono _ (Nat.le_succ m') env s x).weakenL
   funs := fun d _ => bokFun_true d
 
+theorem eval_int (cl q n env s i u v) : eval cl q (n + 1) env s (.int i u v) = (.val (.int v), s) := rfl
+theorem eval_str (cl q n env s i u v) : eval cl q (n + 1) env s (.str i u v) = (.val (.str v), s) := rfl
+
 def isIntV : Val → Bool
   | .int _ => true
   | _ => false
@@ -1100,10 +1104,11 @@ def isStrV : Val → Bool
 
 theorem partialId_int : PartialId chkInt isIntV .typeError := by
   refine ⟨fun x => rfl, fun q m env s x => ?_⟩
+  simp only [chkInt, eval, RefSem.bind]
   cases m with
-  | zero => simp [chkInt, eval, RefSem.bind, hintCheck]
+  | zero => simp [eval, hintCheck]
   | succ m' =>
-    simp only [chkInt, eval, RefSem.bind]
+    simp only [eval_int]
     cases h : eval false q (m' + 1) env s x with
     | mk r s1 =>
       cases r <;> try (simp [hintCheck]; done)
@@ -1112,10 +1117,11 @@ theorem partialId_int : PartialId chkInt isIntV .typeError := by
 
 theorem partialId_str : PartialId chkStr isStrV .typeError := by
   refine ⟨fun x => rfl, fun q m env s x => ?_⟩
+  simp only [chkStr, eval, RefSem.bind]
   cases m with
-  | zero => simp [chkStr, eval, RefSem.bind, hintCheck]
+  | zero => simp [eval, hintCheck]
   | succ m' =>
-    simp only [chkStr, eval, RefSem.bind]
+    simp only [eval_str]
     cases h : eval false q (m' + 1) env s x with
     | mk r s1 =>
       cases r <;> try (simp [hintCheck]; done)
